@@ -22,6 +22,7 @@ package zap
 
 import (
 	"fmt"
+	"reflect"
 	"time"
 
 	"go.uber.org/zap/zapcore"
@@ -221,9 +222,29 @@ type stringers[T fmt.Stringer] []T
 
 func (os stringers[T]) MarshalLogArray(arr zapcore.ArrayEncoder) error {
 	for _, o := range os {
-		arr.AppendString(o.String())
+		s, err := stringOf(o)
+		if err != nil {
+			return err
+		}
+		arr.AppendString(s)
 	}
 	return nil
+}
+
+// stringOf calls String, containing panics the same way the Stringer field
+// does: a nil pointer reads "<nil>", any other panic becomes an error (which
+// is reported under the array's <key>Error).
+func stringOf(s fmt.Stringer) (str string, retErr error) {
+	defer func() {
+		if err := recover(); err != nil {
+			if v := reflect.ValueOf(s); v.Kind() == reflect.Ptr && v.IsNil() {
+				str = "<nil>"
+				return
+			}
+			retErr = fmt.Errorf("PANIC=%v", err)
+		}
+	}()
+	return s.String(), nil
 }
 
 // Times constructs a field that carries a slice of time.Times.
